@@ -338,6 +338,9 @@ class Check:
         for hk, (k, n) in knownhits.items():
             print("KNOWN-FINDING: property=%s %s (%d cases this run)" % (self.prop, k.get("what", hk), n))
         lines = []
+        import glob
+        for old in glob.glob(os.path.join(rdir, "%s-%s-*.json" % (self.prop, self.tier))):   # replay files of an earlier run
+            os.remove(old)
         for n, (key, detail) in enumerate(viol[:20]):
             path = os.path.join(rdir, "%s-%s-%d.json" % (self.prop, self.tier, n))
             with open(path, "w") as f:
